@@ -26,6 +26,8 @@ def contract(expression: Expression) -> Expression:
         and isinstance(expression.denominator, Probability)
         and not expression.numerator.parents
         and not expression.denominator.parents
+        # only marginals of one and the same distribution (e.g., the same population) can be contracted
+        and expression.numerator._new(expression.denominator.distribution) == expression.denominator
         and set(expression.denominator.children).issubset(expression.numerator.children)
     ):
         return expression
